@@ -615,8 +615,10 @@ def signature_parser(run, F, PV, rid="R5"):
         rr = [n for n in A.own_nodes(pf) if isinstance(n, ast.Return)]
         run.check(rid, len(rr) == 1 and norm(rr[0].value) == f"self.{fld}", f"property {prop}", key=f"HSM2DongleSignature.{prop}|getter", where=pf.loc(),
                   message=f"HSM2DongleSignature.{prop} does not return self.{fld} (r and s swapped?)")
-    ef = {f.text() for f in F.exit_facts(ini, S)}
+    # facts on every normal exit, with locals (r_len, s_len, temporaries) expanded to what they stand for
+    ef = {_strip(t) for t in F.exit_texts(ini, S, PV)}
+    rl = f"{b}[3]"
     for w in (f"len({b}) >= 2", f"{b}[0] in [48, 49]", f"len({b}[2:]) >= {b}[1]", f"{b}[2] == 2", f"len({b}[4:]) >= {b}[3]",
-              f"{b}[4 + r_len] == 2", f"len({b}[6 + r_len:]) >= {b}[5 + r_len]"):
-        run.check(rid, w in ef, f"DER check `{w}`", key=f"HSM2DongleSignature|check|{w}", where=ini.loc(),
+              f"{b}[4 + {rl}] == 2", f"len({b}[6 + {rl}:]) >= {b}[5 + {rl}]"):
+        run.check(rid, _strip(w) in ef, f"DER check `{w}`", key=f"HSM2DongleSignature|check|{w}", where=ini.loc(),
                   message=f"the DER parser no longer requires `{w}`")
